@@ -87,6 +87,7 @@ type Eval struct {
 	globals      map[*ssa.Global]*Val // read-only package-level tables (globals.go)
 	outerCond    int   // condition under which the current invocation runs
 	nextBinds    []Val // bindings of the closure about to be entered
+	foldMemo map[[32]int][]int
 }
 
 // Unsupported is the error for constructs outside the grammar (=> undecided).
@@ -330,6 +331,12 @@ func (e *Eval) call(fn *ssa.Function, args []Val) []Val {
 				// come one per evaluation (the caller fixes the scenario)
 				if cond == 0 {
 					continue
+				}
+				if rs[i].Kind == KSlice && rs[i].cell != nil && rs[i].cell.items != nil {
+					// a list: frozen as it is now (the storage may be written
+					// again on another path)
+					fr := append([]Val(nil), rs[i].cell.items[rs[i].Lo:rs[i].Hi]...)
+					rs[i] = Val{Kind: KSlice, cell: &cell{items: fr}, Lo: 0, Hi: len(fr)}
 				}
 				// the first string stands; a second, different one would need a
 				// string merge
@@ -642,7 +649,43 @@ func (e *Eval) call(fn *ssa.Function, args []Val) []Val {
 				if v.Low != nil {
 					i, ok := constIdx(v.Low)
 					if !ok {
-						unsupported("non-constant slice bound in %s", fn.Name())
+						// a symbolic lower bound: one path per feasible value
+						lv := get(v.Low)
+						_, hok := constIdx(v.High)
+						if lv.Kind != KBits || ic != nil || el == nil || a.Kind == KStr || (v.High != nil && !hok) || !loopy {
+							unsupported("non-constant slice bound in %s", fn.Name())
+						}
+						top := hi
+						if v.High != nil {
+							hc, _ := constIdx(v.High)
+							top = base + hc
+						}
+						if top > len(el) || top < base {
+							unsupported("slice bounds out of range in %s", fn.Name())
+						}
+						here := m.And(outer, reach[b])
+						var alts []ChoiceAlt
+						covered := 0
+						for k := 0; base+k <= top; k++ {
+							eq := 1
+							kc := e.Const(int64(k), len(lv.Bits), lv.Signed)
+							for j := range lv.Bits {
+								eq = m.And(eq, m.Not(m.Xor(lv.Bits[j], kc.Bits[j])))
+							}
+							if m.And(here, eq) == 0 {
+								continue
+							}
+							covered = m.Or(covered, eq)
+							alts = append(alts, ChoiceAlt{Cond: eq, Val: Val{Kind: KSlice, Elems: el, Lo: base + k, Hi: top}})
+						}
+						if m.And(here, m.Not(covered)) != 0 {
+							unsupported("slice bounds possibly out of range in %s", fn.Name())
+						}
+						if len(alts) == 0 {
+							vals[v] = Val{Kind: KSlice, Elems: el, Lo: top, Hi: top}
+							continue
+						}
+						return idx, alts
 					}
 					lo = base + i
 				}
@@ -723,7 +766,43 @@ func (e *Eval) call(fn *ssa.Function, args []Val) []Val {
 							out, first = x, false
 							continue
 						}
-						unsupported("phi of non-integer values in %s", fn.Name())
+						// arrays of the same shape (addresses, prefixes) are
+						// selected element by element; the zero value of such a
+						// struct is the array of zeros
+						zeroLike := func(o Val) Val {
+							z := Val{Kind: KArray, Elems: make([][]int, len(o.Elems))}
+							for j := range o.Elems {
+								z.Elems[j] = make([]int, len(o.Elems[j]))
+							}
+							return z
+						}
+						_, isStruct := v.Type().Underlying().(*types.Struct)
+						if isStruct && x.Kind == KOpaque && x.Name == "nil" && out.Kind == KArray {
+							x = zeroLike(out)
+						}
+						if isStruct && out.Kind == KOpaque && out.Name == "nil" && x.Kind == KArray {
+							// the earlier edges all carried the zero value
+							out = zeroLike(x)
+						}
+						if x.Kind == KArray && out.Kind == KArray && len(x.Elems) == len(out.Elems) {
+							ne := make([][]int, len(x.Elems))
+							same := true
+							for j := range x.Elems {
+								if len(x.Elems[j]) != len(out.Elems[j]) {
+									same = false
+									break
+								}
+								ne[j] = make([]int, len(x.Elems[j]))
+								for k := range ne[j] {
+									ne[j][k] = m.Ite(ec, x.Elems[j][k], out.Elems[j][k])
+								}
+							}
+							if same {
+								out = Val{Kind: KArray, Elems: ne}
+								continue
+							}
+						}
+						unsupported("phi of non-integer values (%d/%d, %d/%d elements) in %s", out.Kind, x.Kind, len(out.Elems), len(x.Elems), fn.Name())
 					}
 					if first {
 						// the first live edge as it is; the others are selected by
@@ -840,6 +919,14 @@ func (e *Eval) call(fn *ssa.Function, args []Val) []Val {
 				for i, r := range v.Results {
 					rs[i] = get(r)
 				}
+				for i := range rs {
+					if rs[i].Kind == KSlice && rs[i].cell != nil && rs[i].cell.items != nil {
+						// a list is returned as it is now: the storage may be
+						// written again on another path
+						fr := append([]Val(nil), rs[i].cell.items[rs[i].Lo:rs[i].Hi]...)
+						rs[i] = Val{Kind: KSlice, cell: &cell{items: fr}, Lo: 0, Hi: len(fr)}
+					}
+				}
 				if loopy && reach[b] != 0 {
 					retAlts = append(retAlts, ChoiceAlt{reach[b], tupled(append([]Val(nil), rs...))})
 				}
@@ -946,7 +1033,9 @@ func (e *Eval) call(fn *ssa.Function, args []Val) []Val {
 		for _, s := range cs {
 			s.c.arr, s.c.val, s.c.set, s.c.sym, s.c.pos = s.arr, s.val, s.set, s.sym, s.pos
 			if s.c.items != nil {
-				s.c.items = s.items
+				// a fresh copy: the snapshot is restored once per alternative
+				// and elements are written in place
+				s.c.items = append([]Val(nil), s.items...)
 			}
 		}
 	}
@@ -1732,6 +1821,19 @@ func sameString(a, b Val) bool {
 	case KStr:
 		return a.Str == b.Str
 	case KSlice:
+		ai := a.cell != nil && a.cell.items != nil
+		bi := b.cell != nil && b.cell.items != nil
+		if ai || bi {
+			if !ai || !bi || a.Hi-a.Lo != b.Hi-b.Lo {
+				return false
+			}
+			for i := 0; i < a.Hi-a.Lo; i++ {
+				if !sameString(a.cell.items[a.Lo+i], b.cell.items[b.Lo+i]) {
+					return false
+				}
+			}
+			return true
+		}
 		if a.Lo != b.Lo || a.Hi != b.Hi || len(a.Elems) != len(b.Elems) {
 			return false
 		}
